@@ -96,6 +96,28 @@ def create_output(ctx):
                                    "handle leaks, and the data goes to <name>-1.h5",
                        witness={"input": "touch z.h5.tmp; SolverOptions(output_file='z.h5')",
                                 "path": cfg.describe_path(wit or wit_rm) if (wit or wit_rm) else None})
+    # a handler that tests `<resource> is not None` relies on the variable being reset before every attempt
+    for (nr, (rname, _, rpath)) in acqs:
+        tests = [n for n in cfg.nodes if n.kind == "if" and n.ast is not None and norm(n.ast.test) in (f"{rname} is not None", f"{rname} is None")]
+        if not tests:
+            continue
+        resets = [n.id for n in cfg.nodes if n.kind == "stmt" and isinstance(n.ast, ast.Assign) and isinstance(n.ast.value, ast.Constant)
+                  and n.ast.value.value is None and any(norm(t) == rname or (isinstance(t, ast.Tuple) and rname in [norm(e) for e in t.elts])
+                                                        for t in n.ast.targets)]
+        bad = None
+        for l in loops:
+            # from the loop head (start of an attempt) to the acquisition without passing a reset
+            p = cfg.path(l.id, nr.id, skip=resets, skip_edges=("exc",))
+            if p is not None and any(lab in ("true", "iter") for _, lab in p[1:2]):
+                bad = p
+        ctx.ob("R15.1", f"`{rname}` is reset to None at the start of every attempt (the cleanup guard `{rname} is not None` depends on it)",
+               bad is None and bool(resets), detail={"resets": len(resets), "path_without_reset": cfg.describe_path(bad) if bad else None},
+               where=f.fq, construct=f"reset of `{rname}` per attempt", loc=loc(f, nr.ast),
+               message=f"`{rname}` keeps its value from the previous attempt: when a later attempt fails already at `{norm(nr.ast)[:50]}`, "
+                       f"the cleanup closes the stale handle and removes the file at the *new* path",
+               consequence="with name clashes on two consecutive names (stale <name>.h5.tmp and an existing <name>-1.h5) the user's existing "
+                           "<name>-1.h5 is deleted",
+               witness={"input": "touch z.h5.tmp; existing z-1.h5; SolverOptions(output_file='z.h5')"})
     if not checked:
         # separate try statements: each later acquisition must still have an exception edge handled
         ctx.ob("R15.1", "later acquisitions have no exception edge while an earlier file is open", True, nontrivial=False,
